@@ -238,20 +238,20 @@ Qed.
 Definition wsum (x w : value S) : S := ksum (map (fun uv => (fst uv * snd uv)%K) (combine x w)).
 
 Lemma pacq_weights_reduce (p : probe) (w : value S) (b : bstate S) :
-  pweights p = Some w -> length w = length b -> preduce p <> RFalse ->
-  pacq p b = [wsum (map (qeval (pq p)) b) w].
+  pweights p = Some w -> length w = length (qarr (pq p) b) -> preduce p <> RFalse ->
+  pacq p b = [wsum (qarr (pq p) b) w].
 Proof.
   intros Hw Hl Hr. unfold pacq, reduces. rewrite Hw.
-  rewrite bcast2_same_len by (now rewrite map_length).
+  rewrite bcast2_same_len by (now symmetry).
   destruct (preduce p); try congruence; reflexivity.
 Qed.
 
 Lemma pacq_weights_noreduce (p : probe) (w : value S) (b : bstate S) :
-  pweights p = Some w -> length w = length b -> preduce p = RFalse ->
-  pacq p b = map (fun uv => (fst uv * snd uv)%K) (combine (map (qeval (pq p)) b) w).
+  pweights p = Some w -> length w = length (qarr (pq p) b) -> preduce p = RFalse ->
+  pacq p b = map (fun uv => (fst uv * snd uv)%K) (combine (qarr (pq p) b) w).
 Proof.
   intros Hw Hl Hr. unfold pacq, reduces. rewrite Hw, Hr.
-  now rewrite bcast2_same_len by (now rewrite map_length).
+  now rewrite bcast2_same_len by (now symmetry).
 Qed.
 
 Lemma ksum_scale (l : value S) (c : S) : ksum (map (fun u => (u * c)%K) l) = (ksum l * c)%K.
@@ -259,18 +259,18 @@ Proof. induction l as [|x t IH]; simpl; [ring | rewrite IH; ring]. Qed.
 
 Lemma pacq_scalar_weight (p : probe) (c : S) (b : bstate S) :
   pweights p = Some [c] -> preduce p <> RFalse ->
-  pacq p b = [(ksum (map (qeval (pq p)) b) * c)%K].
+  pacq p b = [(ksum (qarr (pq p) b) * c)%K].
 Proof.
   intros Hw Hr. unfold pacq, reduces. rewrite Hw, bcast2_scalar_r, ksum_scale.
   destruct (preduce p); try congruence; reflexivity.
 Qed.
 
 Lemma pacq_plain (p : probe) (b : bstate S) :
-  pweights p = None -> reduces p = false -> pacq p b = map (qeval (pq p)) b.
+  pweights p = None -> reduces p = false -> pacq p b = qarr (pq p) b.
 Proof. intros Hw Hr. unfold pacq. now rewrite Hw, Hr. Qed.
 
 Lemma pacq_sum (p : probe) (b : bstate S) :
-  pweights p = None -> reduces p = true -> pacq p b = [ksum (map (qeval (pq p)) b)].
+  pweights p = None -> reduces p = true -> pacq p b = [ksum (qarr (pq p) b)].
 Proof. intros Hw Hr. unfold pacq. now rewrite Hw, Hr. Qed.
 
 (* ------------------------------------------------------------------ trees, MultiOperator durations *)
@@ -477,22 +477,32 @@ Proof.
 Qed.
 
 (* un-batched, plain ADC with phase: the recorded number is phasor * quantity of the state at that point *)
+Lemma qarr_scalar (q : quantity S) (b : bstate S) :
+  (forall fs, q <> QTuple fs) -> qarr q b = map (qeval q) b.
+Proof. destruct q; intros H; try reflexivity. now elim (H fs). Qed.
+
+(* a tuple-valued probe records its components one after the other, each on the state at that point *)
+Lemma qarr_tuple (fs : list (sm S -> list S)) (b : bstate S) :
+  qarr (QTuple fs) b = flat_map (fun f => flat_map f b) fs.
+Proof. reflexivity. Qed.
+
 Theorem probe_value_unbatched (seq : list item) (s : sm S) tic j p ph :
-  nth_probe seq j = Some p -> pweights p = None -> reduces p = false -> pphasor p = Some [ph] ->
+  nth_probe seq j = Some p -> (forall fs, pq p <> QTuple fs) ->
+  pweights p = None -> reduces p = false -> pphasor p = Some [ph] ->
   nth j (fst (sim seq [] [s] tic)) [] = [[(qeval (pq p) (run (ops_before seq j) s) * ph)%K]].
 Proof.
-  intros Hp Hw Hr Hph.
+  intros Hp Hq Hw Hr Hph.
   destruct (override_keeps_when_and_post seq [None] [s] tic) as [_ [_ H]]; [discriminate|].
   destruct (H j p Hp) as [_ ->]. unfold recorded, state_at. simpl.
-  rewrite (pacq_plain p _ Hw Hr). unfold ppost. rewrite Hph. reflexivity.
+  rewrite (pacq_plain p _ Hw Hr), (qarr_scalar _ _ Hq). unfold ppost. rewrite Hph. reflexivity.
 Qed.
 
 Theorem weights_reduce (p : probe) (w : value S) (b : bstate S) :
   pweights p = Some w ->
-  (length w = length b -> preduce p <> RFalse -> pacq p b = [wsum (map (qeval (pq p)) b) w]) /\
-  (length w = length b -> preduce p = RFalse ->
-     pacq p b = map (fun uv => (fst uv * snd uv)%K) (combine (map (qeval (pq p)) b) w)) /\
-  (forall c, w = [c] -> preduce p <> RFalse -> pacq p b = [(ksum (map (qeval (pq p)) b) * c)%K]).
+  (length w = length (qarr (pq p) b) -> preduce p <> RFalse -> pacq p b = [wsum (qarr (pq p) b) w]) /\
+  (length w = length (qarr (pq p) b) -> preduce p = RFalse ->
+     pacq p b = map (fun uv => (fst uv * snd uv)%K) (combine (qarr (pq p) b) w)) /\
+  (forall c, w = [c] -> preduce p <> RFalse -> pacq p b = [(ksum (qarr (pq p) b) * c)%K]).
 Proof.
   intros Hw. split; [|split].
   - now apply pacq_weights_reduce.
@@ -502,7 +512,20 @@ Qed.
 
 Theorem reduce_only (p : probe) (b : bstate S) :
   pweights p = None ->
-  pacq p b = if reduces p then [ksum (map (qeval (pq p)) b)] else map (qeval (pq p)) b.
+  pacq p b = if reduces p then [ksum (qarr (pq p) b)] else qarr (pq p) b.
 Proof. intros Hw. unfold pacq. now rewrite Hw. Qed.
+
+(* plain tuple probe Probe("(c1, ..., ck)") at occurrence j, no override: the recorded entry is the
+   concatenation of the components evaluated on the state reached by the prefix — not a later state *)
+Theorem tuple_probe_value (seq : list item) (b : bstate S) tic j p fs :
+  nth_probe seq j = Some p -> pq p = QTuple fs ->
+  pweights p = None -> reduces p = false -> pphasor p = None ->
+  nth j (fst (sim seq [] b tic)) [] = [flat_map (fun f => flat_map f (state_at seq j b)) fs].
+Proof.
+  intros Hp Hq Hw Hr Hph.
+  destruct (override_keeps_when_and_post seq [None] b tic) as [_ [_ H]]; [discriminate|].
+  destruct (H j p Hp) as [_ ->]. unfold recorded.
+  rewrite (pacq_plain p _ Hw Hr), Hq. unfold ppost. now rewrite Hph.
+Qed.
 
 End RunProofs.
